@@ -57,7 +57,10 @@ class BoundedStream(io.IOBase):
         return self
 
     def __next__(self) -> bytes:
-        return next(self.stream)
+        line = self.readline()
+        if not line:
+            raise StopIteration
+        return line
 
     next = __next__
 
@@ -84,8 +87,12 @@ class BoundedStream(io.IOBase):
         if size is None or size == -1 or size > self._bytes_remaining:
             size = self._bytes_remaining
 
-        self._bytes_remaining -= size
-        return target(size)
+        result = target(size)
+
+        # NOTE: Only account for the data that was actually returned; the
+        #   underlying stream may return less than requested, e.g., a line.
+        self._bytes_remaining -= len(result)
+        return result
 
     def readable(self) -> bool:
         """Return ``True`` always."""
@@ -139,7 +146,20 @@ class BoundedStream(io.IOBase):
 
         """
 
-        return self._read(hint, self.stream.readlines)
+        # NOTE: The wrapped stream's readlines() may overshoot its hint by
+        #   up to a line, and thus read past the end of the body, so the
+        #   lines are read one at a time via the bounded readline() instead.
+        lines = []
+        total = 0
+        while True:
+            line = self.readline()
+            if not line:
+                break
+            lines.append(line)
+            total += len(line)
+            if hint is not None and 0 < hint <= total:
+                break
+        return lines
 
     def write(self, data: bytes) -> None:
         """Raise IOError always; writing is not supported."""
